@@ -25,4 +25,17 @@ CHECKS = {
                 "a submit() call overlaps a shutdown() call",
         "assumptions": ["delegate executor and completion of its futures are environment (scripted Manual executor)"],
     },
+    "C05": {
+        "module": "p_c05",
+        "gen_lemmas": ["sleep_time_spec", "should_retry_spec", "exception_policy_runs", "get_next_job_spec"],
+        "rule": "seeded random scenarios (1-3 submissions from 1-2 client threads, outcome scripts per attempt, "
+                "ExceptionRetryPolicy with random integer parameters or a scripted policy incl. raising answers, "
+                "inline/sync and asynchronous delegates completed by 1-2 environment threads with virtual delays, "
+                "done-callbacks added before/after completion) x {random, sticky, PCT} schedules; every implementation "
+                "history is replayed event by event on Model/Retry.v (extracted); plus a differential of the regenerated "
+                "kernels should_retry/sleep_time/_get_next_job against the Python functions; distinct = distinct event "
+                "traces; non-trivial = at least one retry was granted and a preemption occurred",
+        "assumptions": ["delegate executor, callable outcomes, policy answers and the clock are environment",
+                        "integer-valued delays in the lockstep histories; dyadic rationals in the kernel differential"],
+    },
 }
